@@ -10,6 +10,7 @@
   token; this enters only through `WriteOK` (each ordinate text is "null" or a number token).
 -/
 import GeoProofs.WriteLemmas
+import GeoProofs.DispatchFacts
 
 namespace Geo
 
